@@ -188,6 +188,29 @@ impl SnmpV3ClientSocket {
     }
 }
 
+impl SnmpV3ClientSocket {
+    /// Check the msgAuthenticationParameters of the received message.
+    /// `params` must be the part of the `raw`.
+    fn check_auth(&self, raw: &[u8], params: &[u8]) -> bool {
+        let placeholder = self.auth_key.placeholder();
+        if placeholder.is_empty() || params.len() != placeholder.len() || raw.len() < params.len() {
+            return false;
+        }
+        // Zero-copy parsing, params points inside the raw
+        let offset = (params.as_ptr() as usize).wrapping_sub(raw.as_ptr() as usize);
+        if offset > raw.len() - params.len() {
+            return false;
+        }
+        // Calculate the digest over the message with zeroed auth parameters
+        let mut msg = raw.to_vec();
+        msg[offset..offset + placeholder.len()].copy_from_slice(placeholder);
+        if self.auth_key.sign(&mut msg, offset).is_err() {
+            return false;
+        }
+        msg[offset..offset + placeholder.len()] == *params
+    }
+}
+
 impl SnmpSocket for SnmpV3ClientSocket {
     type Message<'a> = SnmpV3Message<'a>;
 
@@ -244,7 +267,15 @@ impl SnmpSocket for SnmpV3ClientSocket {
         self.auth_key.sign(buf.data_mut(), offset)
     }
 
-    fn unwrap_pdu<'a>(&'a mut self, msg: Self::Message<'a>) -> Option<SnmpPdu<'a>> {
+    fn unwrap_pdu<'a>(&'a mut self, msg: Self::Message<'a>, raw: &'a [u8]) -> Option<SnmpPdu<'a>> {
+        // Authenticate incoming message, RFC-3414 pp. 3.2 (6)
+        let authentic = msg.flag_auth && self.check_auth(raw, msg.usm.auth_params);
+        if msg.flag_auth && !authentic {
+            return None; // Wrong digest
+        }
+        // Security level must not be lower than configured one
+        let level_ok = (authentic || !self.auth_key.has_auth())
+            && (matches!(msg.data, MsgData::Encrypted(_)) || !self.priv_key.has_priv());
         // Get and decode scoped pdu
         let data = match msg.data {
             MsgData::Plaintext(x) => x,
@@ -253,6 +284,10 @@ impl SnmpSocket for SnmpV3ClientSocket {
                 Err(_) => return None, // Failed to decrypt
             },
         };
+        // Only reports may have lower security level
+        if !level_ok && !matches!(data.pdu, SnmpPdu::Report(_)) {
+            return None;
+        }
         // Global header check
         if !(self.user_name.as_bytes() == msg.usm.user_name
             && (self.engine_id.is_empty() || msg.usm.engine_id == self.engine_id)
